@@ -128,7 +128,19 @@ impl Layer for DialogLayer {
         'outer: for request in requests {
             let mut request = Some(request);
 
-            for usage in usages.values() {
+            for (usage_key, usage) in usages.iter() {
+                // The usages were cloned when the request(s) were taken from the dialog. A usage whose guard
+                // has been dropped since (e.g. while an earlier request was handled) must not be called anymore.
+                let still_registered = self
+                    .dialogs
+                    .lock()
+                    .get(&key)
+                    .is_some_and(|dialog_entry| dialog_entry.usages.contains_key(usage_key));
+
+                if !still_registered {
+                    continue;
+                }
+
                 let span = info_span!("usage", name = %usage.name());
 
                 usage
